@@ -80,3 +80,16 @@ Definition src_obstacle_setters : list setter :=
   (* initial_state *) {| s_attr := 0; s_main := [EStore; ERebuild 0]; s_tail := [ERebuild 0] |};
   (* obstacle_shape *) {| s_attr := 1; s_main := []; s_tail := [] |}
   ].
+
+(* TrafficLightCycle (commonroad/scenario/traffic_light.py sha1=2d13ef0188dab6b84226451dc9c5a7966118510e)
+   attributes: 0 = _cycle_elements, 1 = _time_offset, 2 = _active
+   derived:    0 = _cycle_init_timesteps <- {_cycle_elements, _time_offset}
+*)
+Definition src_traffic_light_cycle_caches : list nat := [0].
+Definition src_traffic_light_cycle_deps (k : nat) : list nat := match k with | 0 => [0; 1] | _ => [] end.
+Definition src_traffic_light_cycle_setters : list setter :=
+  [
+  (* cycle_elements *) {| s_attr := 0; s_main := [EStore; EDrop 0]; s_tail := [] |};
+  (* time_offset *) {| s_attr := 1; s_main := [EStore; EDrop 0]; s_tail := [] |};
+  (* active *) {| s_attr := 2; s_main := [EStore]; s_tail := [] |}
+  ].
